@@ -48,7 +48,7 @@ type caseT struct {
 	Kind    string `json:"kind"` // op | table | sweep | sql
 	Charset string `json:"charset,omitempty"`
 	Op      int    `json:"op"` // 0 Decode 1 Encode 2 EncodeReplaceUnknown 3 DecodeRune 4 EncodeRune
-	S       string `json:"s,omitempty"`   // hex
+	S       string `json:"s,omitempty"` // hex
 	Hid     string `json:"hid,omitempty"` // hex: bytes between len and cap of the slice given to Encode
 	SQL     []string `json:"sql,omitempty"`
 	Obs     string `json:"obs,omitempty"`
@@ -182,23 +182,6 @@ func tailShort(cs charset, s []byte) bool {
 			return false
 		}
 		s = s[found:]
-	}
-	return false
-}
-
-func hasEncodedSurrogate(s []byte) bool {
-	for i := 0; i+1 < len(s); i++ {
-		if s[i] == 0xED && s[i+1] >= 0xA0 && s[i+1] <= 0xBF {
-			return true
-		}
-	}
-	return false
-}
-func hasAboveMax(s []byte) bool {
-	for i := 0; i+1 < len(s); i++ {
-		if s[i] == 0xF4 && s[i+1] >= 0x90 && s[i+1] <= 0xBF {
-			return true
-		}
 	}
 	return false
 }
@@ -349,6 +332,26 @@ func genCharsetSide(r *lib.RNG, cs charset, pieces int) []byte {
 	return s
 }
 
+// long runs of 7-bit bytes including the positions that national 7-bit sets (swe7) reassign
+func genSevenBit(r *lib.RNG) []byte {
+	n := r.Range(8, 40)
+	b := make([]byte, n)
+	for i := range b {
+		switch r.Intn(4) {
+		case 0:
+			b[i] = lib.Pick(r, []byte("@[\\]^`{|}~"))
+		case 1:
+			b[i] = byte(r.Range(0x20, 0x7E))
+		default:
+			b[i] = byte(r.Range('a', 'z'))
+		}
+	}
+	if r.Chance(1, 2) {
+		b[r.Intn(n)] = lib.Pick(r, []byte("@[\\]^`{|}~"))
+	}
+	return b
+}
+
 func gen(r *lib.RNG) caseT {
 	all := append(append([]charset{}, charsets...), passthrough...)
 	cs := all[r.Intn(len(all))]
@@ -356,6 +359,29 @@ func gen(r *lib.RNG) caseT {
 		cs = charsets[r.Intn(len(charsets))]
 	}
 	c := caseT{Kind: "op", Charset: cs.Name}
+	if cs.Wide != 0 && r.Chance(1, 12) {
+		// CONVERT ... USING through SQL on valid text (representable, unrepresentable, U+FFFD, long 7-bit runs)
+		var s []byte
+		switch r.Intn(4) {
+		case 0:
+			s = genSevenBit(r)
+		case 1:
+			s = []byte("ab\xef\xbf\xbdcdef")
+		default:
+			for i, n := 0, r.Range(1, 6); i < n; i++ {
+				if r.Chance(1, 5) {
+					s = append(s, []byte(string(randRune(r)))...)
+				} else if d, ok := cs.Enc.DecodeRune(randCode(r, cs)); ok && utf8.Valid(d) {
+					s = append(s, d...)
+				}
+			}
+			if r.Chance(1, 2) {
+				s = append(s, []byte("tail")...)
+			}
+		}
+		s = bytes.ReplaceAll(s, []byte{0}, []byte{'0'})
+		return caseT{Kind: "conv", Charset: cs.Name, S: hex.EncodeToString(s)}
+	}
 	switch k := r.Intn(20); {
 	case k < 6:
 		c.Op = 0
@@ -386,6 +412,40 @@ func gen(r *lib.RNG) caseT {
 	default:
 		s = genUTF8Side(r, cs, pieces)
 	}
+	if r.Chance(1, 6) && c.Op <= 2 {
+		// long text: 7-bit runs (both directions), optionally with representable non-ASCII characters and U+FFFD mixed in
+		s = genSevenBit(r)
+		if c.Op != 0 && r.Chance(1, 2) {
+			extra := genUTF8Side(r, cs, r.Range(1, 4))
+			if utf8.Valid(extra) {
+				p := r.Intn(len(s))
+				s = append(append(append([]byte{}, s[:p]...), extra...), s[p:]...)
+			}
+		}
+		if c.Op == 0 && cs.Wide == 2 || c.Op == 0 && cs.Wide == 4 {
+			var w []byte
+			for _, b := range s {
+				if cs.Wide == 2 {
+					w = append(w, 0, b)
+				} else {
+					w = append(w, 0, 0, 0, b)
+				}
+			}
+			s = w
+		}
+	}
+	if c.Op != 0 && c.Op != 3 && r.Chance(1, 10) {
+		// exactly U+FFFD, alone or inside text
+		fffd := []byte("\xef\xbf\xbd")
+		switch r.Intn(3) {
+		case 0:
+			s = fffd
+		case 1:
+			s = append(append([]byte("ab"), fffd...), []byte("cdef")...)
+		default:
+			s = append(s, fffd...)
+		}
+	}
 	if c.Op == 1 && r.Chance(3, 10) {
 		switch r.Intn(3) {
 		case 0:
@@ -411,6 +471,9 @@ func runCase(c *lib.Ctx, cs0 caseT) {
 		return
 	case "sql":
 		runSQL(c, cs0)
+		return
+	case "conv":
+		runConv(c, cs0)
 		return
 	}
 	cs, found := findCharset(cs0.Charset)
@@ -468,17 +531,31 @@ func predicate(c *lib.Ctx, id int, cs charset, cs0 caseT, s, hid []byte, o obsT)
 	}
 	switch cs0.Op {
 	case 1:
+		// for input that is not valid UTF-8 (no characters) the property demands only the absence of a crash
+		if !utf8.Valid(s) {
+			return
+		}
 		if o.ok {
 			// 2. round trip: what Encode accepts, Decode gives back
 			d := runOp(cs.Enc, 0, o.out, nil)
 			if d.panic != "" || !d.ok || !bytes.Equal(d.out, s) {
-				sig := "roundtrip/encode-then-decode/" + cs.Name
-				if (cs.Name == "Utf16" || cs.Name == "Utf32") && hasEncodedSurrogate(s) {
-					sig = "encode-accepts-utf8-encoded-surrogate/" + cs.Name
-				} else if cs.Name == "Utf32" && hasAboveMax(s) {
-					sig = "encode-accepts-above-U+10FFFF/Utf32"
+				c.PredFail(id, "roundtrip/encode-then-decode/"+cs.Name, what("= %x accepted, but Decode of that = %s", o.out, d), cs0)
+			}
+		}
+		// 2b. a string converts exactly as its characters do: all representable -> concatenation, otherwise reported
+		if cs.Wide != 0 && len(hid) == 0 {
+			var want []byte
+			all := true
+			for _, x := range string(s) {
+				if e := runOp(cs.Enc, 4, []byte(string(x)), nil); e.panic == "" && e.ok {
+					want = append(want, e.out...)
+				} else {
+					all = false
+					break
 				}
-				c.PredFail(id, sig, what("= %x accepted, but Decode of that = %s", o.out, d), cs0)
+			}
+			if all != o.ok || (all && !bytes.Equal(want, o.out)) {
+				c.PredFail(id, "encode-differs-from-per-character-conversion/"+cs.Name, what("= %s, per character: ok=%v %x", o, all, want), cs0)
 			}
 		}
 		// 3. independent oracle on valid text (a panic was reported above)
@@ -495,13 +572,26 @@ func predicate(c *lib.Ctx, id int, cs charset, cs0 caseT, s, hid []byte, o obsT)
 			}
 		}
 	case 0:
+		// single-byte sets: a string decodes exactly as its bytes do
+		if cs.Wide == 1 {
+			var want []byte
+			all := true
+			for _, b := range s {
+				if e := runOp(cs.Enc, 3, []byte{b}, nil); e.panic == "" && e.ok {
+					want = append(want, e.out...)
+				} else {
+					all = false
+					break
+				}
+			}
+			if all != o.ok || (all && !bytes.Equal(want, o.out)) {
+				c.PredFail(id, "decode-differs-from-per-byte-conversion/"+cs.Name, what("= %s, per byte: ok=%v %x", o, all, want), cs0)
+			}
+		}
 		if o.ok && len(hid) == 0 {
 			e := runOp(cs.Enc, 1, o.out, nil)
 			if e.panic != "" || !e.ok || !bytes.Equal(e.out, s) {
 				c.PredFail(id, "roundtrip/decode-then-encode/"+cs.Name, what("= %x, but Encode of that = %s", o.out, e), cs0)
-			}
-			if cs.Wide != 0 && !utf8.Valid(o.out) {
-				c.PredFail(id, "decode-yields-invalid-utf8/"+cs.Name, what("= %x is not valid UTF-8", o.out), cs0)
 			}
 		}
 	case 2:
@@ -537,15 +627,10 @@ func predicate(c *lib.Ctx, id int, cs charset, cs0 caseT, s, hid []byte, o obsT)
 			}
 		}
 	case 4:
-		if o.ok {
+		if o.ok && utf8.Valid(s) {
 			d := runOp(cs.Enc, 3, o.out, nil)
 			if d.panic != "" || !d.ok || !bytes.Equal(d.out, s) {
 				sig := "roundtrip/encoderune-then-decoderune/" + cs.Name
-				if (cs.Name == "Utf16" || cs.Name == "Utf32") && hasEncodedSurrogate(s) {
-					sig = "encode-accepts-utf8-encoded-surrogate/" + cs.Name
-				} else if cs.Name == "Utf32" && hasAboveMax(s) {
-					sig = "encode-accepts-above-U+10FFFF/Utf32"
-				}
 				c.PredFail(id, sig, what("= %x accepted, but DecodeRune of that = %s", o.out, d), cs0)
 			}
 		}
@@ -691,12 +776,70 @@ func runSQL(c *lib.Ctx, cs0 caseT) {
 		r := s.Query(q)
 		if r.Panic != "" {
 			sig := "sql/panic/" + firstWords(r.Panic)
-			if strings.Contains(r.Panic, "slice bounds out of range") {
+			if strings.Contains(r.Panic, "slice bounds out of range") && strings.Contains(q, "FROM t") {
 				sig = "sql/read-of-unrepresentable-text-in-narrow-charset-column/slice-out-of-range"
+			} else if strings.Contains(r.Panic, "slice bounds out of range") && strings.Contains(q, "HEX(CONVERT(") {
+				sig = "sql/hex-of-convert-using/slice-out-of-range"
 			}
 			c.PredFail(id, sig, fmt.Sprintf("%q panics: %s", q, r.Panic), cs0)
 			return
 		}
+	}
+}
+
+var convSess *eng.S
+
+// runConv: CONVERT(_utf8mb4 x'..' USING cs) through the engine on valid UTF-8 text: every character is converted as
+// EncodeRune converts it or replaced by one '?'; never a crash.
+func runConv(c *lib.Ctx, cs0 caseT) {
+	cs, found := findCharset(cs0.Charset)
+	if !found || cs.Wide == 0 {
+		return
+	}
+	s, _ := hex.DecodeString(cs0.S)
+	if !utf8.Valid(s) || len(s) == 0 {
+		return
+	}
+	id := c.CaseNoModel(cs0, "conv|"+cs.Name+"|"+cs0.S)
+	c.Count("sql_convert_using")
+	c.PredChecked()
+	if convSess == nil {
+		convSess = eng.New("db").Session()
+	}
+	q := fmt.Sprintf("SELECT CONVERT(_utf8mb4 x'%X' USING %s)", s, strings.ToLower(cs.Name))
+	r := convSess.Query(q)
+	if r.Panic != "" {
+		c.PredFail(id, "sql/convert-using/panic/"+firstWords(r.Panic), q+" panics: "+r.Panic, cs0)
+		return
+	}
+	if r.Err != nil || len(r.Rows) != 1 {
+		c.PredFail(id, "sql/convert-using/error", fmt.Sprintf("%s fails: %v", q, r.Err), cs0)
+		return
+	}
+	var got []byte
+	switch v := r.Rows[0][0].(type) {
+	case string:
+		got = []byte(v)
+	case []byte:
+		got = v
+	default:
+		c.Count("sql_convert_using_unreadable")
+		return
+	}
+	var want []byte
+	for _, x := range string(s) {
+		if e := runOp(cs.Enc, 4, []byte(string(x)), nil); e.panic == "" && e.ok {
+			want = append(want, e.out...)
+		} else {
+			want = append(want, '?')
+		}
+	}
+	if !bytes.Equal(want, got) {
+		sig := "sql/convert-using-not-per-character/" + cs.Name
+		if n := len(got); n > 0 && n < len(want) && len(want)-n <= 2 && got[n-1] == '?' && bytes.Equal(want[:n], got) {
+			sig = "replace-unknown/drops-characters-after-unrepresentable-near-end"
+		}
+		c.PredFail(id, sig, fmt.Sprintf("%s = %x, expected %x (each character converted or replaced by '?')", q, got, want), cs0)
 	}
 }
 
@@ -753,6 +896,22 @@ func main() {
 			caseT{Kind: "op", Charset: "Binary", Op: 1, S: h(0xFF, 0x00)},
 			caseT{Kind: "op", Charset: "Utf8mb4", Op: 0, S: h(0xF0, 0x9F, 0x98, 0x80)},
 			caseT{Kind: "sql", SQL: []string{"CREATE TABLE t (a VARCHAR(10) CHARACTER SET latin1)", "INSERT INTO t VALUES ('日')", "SELECT HEX(a) FROM t"}},
+			caseT{Kind: "sql", SQL: []string{"SELECT HEX(CONVERT(_utf8mb4 x'EDA080' USING utf16))"}}, // known: HEX re-encodes the converted bytes; Encode's missing guard
+			caseT{Kind: "op", Charset: "Utf16", Op: 2, S: h(0xEF, 0xBF, 0xBD)},
+			caseT{Kind: "op", Charset: "Utf32", Op: 2, S: h('a', 0xEF, 0xBF, 0xBD, 'b')},
+			caseT{Kind: "op", Charset: "Utf8mb3", Op: 2, S: h('a', 0xEF, 0xBF, 0xBD)},
+			caseT{Kind: "op", Charset: "Latin1", Op: 2, S: h('a', 0xEF, 0xBF, 0xBD, 'b', 'c', 'd', 'e')},
+			caseT{Kind: "op", Charset: "Swe7", Op: 2, S: h(0xEF, 0xBF, 0xBD, 'b', 'c', 'd', 'e')},
+			caseT{Kind: "op", Charset: "Utf16", Op: 1, S: h(0xEF, 0xBF, 0xBD)},
+			caseT{Kind: "op", Charset: "Swe7", Op: 1, S: hex.EncodeToString([]byte("abcdefgh@ijklmnop"))},
+			caseT{Kind: "op", Charset: "Swe7", Op: 1, S: hex.EncodeToString([]byte("abcdefghijklmnop"))},
+			caseT{Kind: "op", Charset: "Swe7", Op: 2, S: hex.EncodeToString([]byte("abcd[efgh]ijkl{mnop}qrst"))},
+			caseT{Kind: "op", Charset: "Swe7", Op: 0, S: hex.EncodeToString([]byte("abcdefgh@[\\]^`{|}~ijklmnop"))},
+			caseT{Kind: "op", Charset: "Latin1", Op: 0, S: hex.EncodeToString([]byte("abcdefgh@[\\]^`{|}~ijklmnop"))},
+			caseT{Kind: "conv", Charset: "Utf16", S: h('a', 0xEF, 0xBF, 0xBD, 'b')},
+			caseT{Kind: "conv", Charset: "Utf8mb3", S: h(0xEF, 0xBF, 0xBD)},
+			caseT{Kind: "conv", Charset: "Latin1", S: h('a', 0xEF, 0xBF, 0xBD, 'b', 'c', 'd', 'e')},
+			caseT{Kind: "conv", Charset: "Swe7", S: hex.EncodeToString([]byte("abcdefgh@ijklmnop"))},
 			caseT{Kind: "sql", SQL: []string{"SELECT CONVERT('a日' USING latin1)", "SELECT CONVERT(x'C3' USING latin1)", "SELECT HEX(CONVERT('é\U0001F600' USING utf16))", "SELECT CONVERT(CONVERT('é' USING latin1) USING utf8mb4)"}},
 		)
 		for _, cs := range corpus {
